@@ -165,3 +165,11 @@ fn add_subblock_map(H_I: &mut Vec<usize>, clique_vertices: &[usize], row_start: 
         }
     }
 }
+
+// verification-only hooks (see /verif); compiled only under the guard cfg
+#[cfg(oxfordcontrol_clarabel_rs_verif)]
+pub(crate) mod verif_hooks_as {
+    pub(crate) fn add_subblock_map(H_I: &mut Vec<usize>, clique_vertices: &[usize], row_start: usize) {
+        super::add_subblock_map(H_I, clique_vertices, row_start)
+    }
+}
